@@ -166,6 +166,15 @@ func (tree *ParserT) parseStatement(exec bool) error {
 						return err
 					}
 				} else {
+					if len(tree.statement.paramTemp) == 1 {
+						// single character word directly followed by the redirection
+						// token (eg `a>>`): there is nothing to trim
+						if err := tree.nextParameter(); err != nil {
+							return err
+						}
+						tree.charPos--
+						return nil
+					}
 					if len(tree.statement.paramTemp) > 0 {
 						tree.statement.paramTemp = tree.statement.paramTemp[:len(tree.statement.paramTemp)-2]
 						if err := tree.nextParameter(); err != nil {
@@ -225,6 +234,15 @@ func (tree *ParserT) parseStatement(exec bool) error {
 						return err
 					}
 				} else {
+					if len(tree.statement.paramTemp) == 1 {
+						// single character word directly followed by the redirection
+						// token (eg `a>>`): there is nothing to trim
+						if err := tree.nextParameter(); err != nil {
+							return err
+						}
+						tree.charPos--
+						return nil
+					}
 					if len(tree.statement.paramTemp) > 0 {
 						tree.statement.paramTemp = tree.statement.paramTemp[:len(tree.statement.paramTemp)-2]
 						if err := tree.nextParameter(); err != nil {
